@@ -1562,10 +1562,68 @@ Plan generate(const std::string& mode, uint64_t seed, uint64_t run) {
       why = "single-quoted strings";
     } else if (sel < 85) {
       // comments between tokens: accepted iff the build enables them
-      auto pos = structuralOffsets(b, ",:[{");
-      if (!pos.empty()) {
-        size_t at = pos[r.below(pos.size())] + 1;
-        b.insert(at, r.chance(1, 2) ? "/* c */" : "// c\n");
+      // (1-3 of them, at any place where white space may stand; bodies drawn from the characters the
+      // comment scanner itself looks at, so runs of '*' and '/' of either parity occur before the closer)
+      auto comment = [&](bool closed) {
+        std::string c;
+        static const char alpha[] = "**//c \n\"*]";
+        size_t n = size_t(r.below(7));
+        if (r.chance(1, 2)) {
+          c = "/*";
+          for (size_t j = 0; j < n; j++) {
+            char x = alpha[r.below(sizeof(alpha) - 1)];
+            if (x == '/' && c.size() > 2 && c.back() == '*')
+              x = ' ';  // would close the comment early
+            c += x;
+          }
+          if (closed)
+            c += "*/";
+          else if (!c.empty() && c.back() == '/' && c.size() > 3 && c[c.size() - 2] == '*')
+            c += 'x';
+        } else {
+          c = "//";
+          for (size_t j = 0; j < n; j++) {
+            char x = alpha[r.below(sizeof(alpha) - 1)];
+            c += x == '\n' ? '*' : x;
+          }
+          if (closed)
+            c += "\n";
+        }
+        return c;
+      };
+      bool truncated = r.chance(1, 6);
+      if (truncated) {
+        // the text ends inside a comment that stands inside the top-level value
+        auto pos = structuralOffsets(b, ",:[{");
+        size_t at = pos.empty() ? 0 : pos[r.below(pos.size())] + 1;
+        if (at == 0) {
+          b = "[1";
+          at = 2;
+        }
+        b = b.substr(0, at) + comment(false);
+        op.set("needs", "comments");
+        op.setq("b", b).set("expect", "IncompleteInput").setq("why", "input ends inside a comment").set("cls", "C10:dialect");
+        static const char* kj2[] = {"cptr", "cptr_n", "istream", "custom", "std", "astring"};
+        op.set("kinds", kj2[r.below(6)]);
+        p.ops.push_back(op);
+        return p;
+      }
+      {
+        // one insertion point on the comment-free text; one to three comments in a row there
+        auto after = structuralOffsets(b, ",:[{");
+        auto before = structuralOffsets(b, ",:]}");
+        std::vector<size_t> places;
+        for (size_t x : after)
+          places.push_back(x + 1);
+        for (size_t x : before)
+          places.push_back(x);
+        places.push_back(0);
+        size_t at = places[r.below(places.size())];
+        int howMany = 1 + int(r.below(3));
+        std::string run;
+        for (int c = 0; c < howMany; c++)
+          run += comment(true) + (r.chance(1, 3) ? " " : "");
+        b.insert(at, run);
       }
       op.set("needs", "comments");
       why = "comment between tokens";
